@@ -165,6 +165,14 @@ func cmdCheck(args []string) int {
 	var all []*Obligation
 	lemmaUses := map[string]bool{}
 	for _, r := range reports {
+		// a clause tagged with its own property list is an obligation of those properties only
+		var keep []*Obligation
+		for _, o := range r.Obls {
+			if len(o.Props) == 0 || hasString(o.Props, *prop) {
+				keep = append(keep, o)
+			}
+		}
+		r.Obls = keep
 		all = append(all, r.Obls...)
 	}
 	for _, lm := range lemmas {
@@ -463,3 +471,12 @@ func propertyAssumptions(prop string) []string {
 }
 
 var _ = strings.Join
+
+func hasString(xs []string, x string) bool {
+	for _, y := range xs {
+		if y == x {
+			return true
+		}
+	}
+	return false
+}
